@@ -88,6 +88,63 @@ def _fresh_vo(ctx, path, extra=()):
             ctx.say(f"[coq] {path} does not compile:\n{p.stderr[-800:]}")
 
 
+def _ssa(t):
+    """the DAG of a single-path regenerated target as a straight-line program over the atoms sin(x), cos(x) (same argument x):
+    -> (Coq text of the instruction list, output indices, Gallina text of x).  Anything else raises."""
+    from pysym import emit
+    from pysym.sym import S, Leaf
+    if not isinstance(t.tree, Leaf) or t.tree.kind != 'val':
+        raise ValueError('target has more than one path')
+    P = emit.Printer('R')
+    idx, prog, arg = {}, [], [None]
+
+    def q(f):
+        return f"({f.numerator} # {f.denominator})%Q"
+
+    def rec(e):
+        if e.uid in idx:
+            return idx[e.uid]
+        op, a = e.op, e.args
+        if op == 'const':
+            ins = f"IC {q(a[0])}"
+        elif op == 'fn' and a[0] in ('sin', 'cos') and len(a) == 2:
+            txt = P.expr_raw(a[1])
+            if arg[0] is None:
+                arg[0] = txt
+            elif arg[0] != txt:
+                raise ValueError('sin/cos of two different arguments')
+            ins = 'IA 0' if a[0] == 'sin' else 'IA 1'
+        elif op in ('add', 'sub', 'mul'):
+            i, j = rec(a[0]), rec(a[1])
+            ins = f"{ {'add': 'IAdd', 'sub': 'ISub', 'mul': 'IMul'}[op] } {i} {j}"
+        elif op == 'neg':
+            ins = f"INeg {rec(a[0])}"
+        elif op == 'pow':
+            ins = f"IPow {rec(a[0])} {int(a[1])}"
+        else:
+            raise ValueError(f'node {op} {a[0] if op == "fn" else ""} is not polynomial in sin/cos')
+        prog.append(ins)
+        idx[e.uid] = len(prog) - 1
+        return idx[e.uid]
+    outs = [rec(e) for e in t.tree.flat]
+    return '[' + ';\n  '.join(prog) + ']', outs, arg[0] or '0'
+
+
+def prog_v(ctx):
+    out = ["(* GENERATED on every run: the DAGs of the regenerated targets C14_legendre and C14_cpsp as straight-line programs. *)",
+           "From Coq Require Import Reals List ZArith QArith.", "From AhrsModel Require Import C14_wmm.",
+           "Import ListNotations.", "Close Scope Q_scope."]
+    for name, var in (('C14_legendre', 'phi'), ('C14_cpsp', 'lon')):
+        t = ctx.targets.get(name)
+        if t is None or t.error:
+            raise ValueError(f'{name} was not translated')
+        prog, outs, arg = _ssa(t)
+        out.append(f"Definition {name}_prog : list instr :=\n  {prog}.")
+        out.append(f"Definition {name}_outs : list nat := [{'; '.join(map(str, outs))}].")
+        out.append(f"Definition {name}_arg ({var} : R) : R := ({arg})%R.")
+    return '\n'.join(out) + '\n'
+
+
 def pregen(ctx):
     _fresh_vo(ctx, os.path.join(COQLIB, 'SphHarm.v'))
     _fresh_vo(ctx, os.path.join(COQMODEL, 'C14_wmm.v'))
@@ -100,6 +157,16 @@ def pregen(ctx):
         ctx.say(f"[gen] C14data.v does not compile:\n{r['err'][-800:]}")
     else:
         ctx.say(f"[gen] C14data.v: {sum(len(v[2]) for v in files().values())} coefficient rows of {len(files())} files")
+    try:
+        fn = os.path.join(ctx.build, 'gen', 'C14prog.v')
+        with open(fn, 'w') as fh:
+            fh.write(prog_v(ctx))
+        r = ctx.coqc(fn)
+        if r['rc'] != 0:
+            raise ValueError('C14prog.v does not compile: ' + r['err'][-600:])
+    except Exception as e:
+        ctx.broken.append({'kind': 'translation', 'target': 'C14prog', 'error': f'{type(e).__name__}: {e}'})
+        ctx.say(f"[gen] C14prog.v not written: {e}")
     ctx.targets_meta['C14data'] = {'tie': 'regenerated-data', 'rows': {str(y): len(v[2]) for y, v in files().items()}}
     ctx.targets_meta['C14_wmm (hand model)'] = {'tie': 'hand+correspondence'}
 
@@ -123,17 +190,24 @@ def _legendre(A, v):
             [w.dP[m, n] for n in range(NMAX + 1) for m in range(n + 1)]]
 
 
+def _cpsp(A, v):
+    w = A.utils.wmm.WMM(date=2022.5, latitude=0.0, longitude=0.0)
+    w.magnetic_field(0.0, v.lon, 0.0, date=2022.5)
+    return [[w.cp[m] for m in range(NMAX + 1)], [w.sp[m] for m in range(NMAX + 1)]]
+
+
 def targets():
     ts = [Target(f'C14_field_{k}', ['lat', 'lon', 'h'], _field(d),
                  doc=f'WMM().magnetic_field(lat, lon, h, date={d}) then X, Y, Z (degrees, km)') for k, d in GEN_DATES.items()]
     ts.append(Target('C14_g2s', ['lat', 'lon', 'h'], lambda A, v: A.utils.wmm.geodetic2spherical(v.lat, v.lon, v.h),
                      doc='geodetic2spherical(lat, lon, h) (radians, km)'))
+    ts.append(Target('C14_cpsp', ['lon'], _cpsp, doc='cp[m], sp[m] (m <= 12) left by magnetic_field(0, lon, 0, date=2022.5), lon in degrees'))
     ts.append(Target('C14_legendre', ['phi'], _legendre,
                      doc='P[m,n], dP[m,n] (n<=12, m<=n, row-major in n) after denormalize_coefficients(phi)'))
     return ts
 
 
-STAGES = [['C14_poly.v', 'C14_data.v'], ['C14_synth.v'], ['C14.v']]
+STAGES = [['C14_poly.v', 'C14_data.v'], ['C14_synth.v', 'C14_ssa.v'], ['C14_tie.v', 'C14_polar.v'], ['C14.v']]
 
 
 # ------------------------------------------------------------------------------------------------
@@ -326,16 +400,18 @@ def _corr_epoch(ctx):
     for d, o in zip(dates, outs):
         mm = re.match(r'\((\d+), (.*)\)', o)
         e, t0 = int(mm.group(1)), _floats(mm.group(2))[0]
-        w = WMM(date=d, latitude=0.0, longitude=0.0)
-        if w.wmm_filename != names[e] or float(w.epoch) != t0:
-            ctx.disagree('C14_epoch', {'date': d}, [names[e], t0], [w.wmm_filename, float(w.epoch)])
+        io = call_outcome(lambda: (lambda w: [w.wmm_filename, float(w.epoch)])(WMM(date=d, latitude=0.0, longitude=0.0)))
+        if io[0] == 'raise' or io[1] != [names[e], t0]:
+            ctx.disagree('C14_epoch', {'date': d}, [names[e], t0], io[1:] if io[0] == 'raise' else io[1])
         else:
             ctx.agree('C14_epoch')
     ctx.say(f"[corr] C14_epoch: {len(dates)} dates, {ctx.corr_stats.get('C14_epoch', {}).get('disagree', 0)} disagreements")
 
 
 def _corr_data(ctx):
-    """gen/C14data.v (parsed here, independently of np.genfromtxt) vs the arrays load_coefficients builds"""
+    """gen/C14data.v (parsed here, independently of np.genfromtxt) vs the arrays load_coefficients builds: all three files,
+    all 90 rows x 4 numbers each compared exactly, plus the complete 13x13 packed matrices (np.genfromtxt is input-free here,
+    so this correspondence is exhaustive)"""
     from ahrs.utils.wmm import WMM
     for y, (t0, name, rows) in files().items():
         w = WMM(date=float(y) + 0.5, latitude=0.0, longitude=0.0)
@@ -348,6 +424,14 @@ def _corr_data(ctx):
             exp = [float(g), float(gd)] + ([float(h), float(hd)] if m else [])
             if got != exp:
                 bad = ((n, m), got, exp)
+        # exhaustive: the whole packed matrices, not only the cells the rows name (nothing else may be written)
+        ec, ecd = np.zeros((NMAX + 1, NMAX + 1)), np.zeros((NMAX + 1, NMAX + 1))
+        for n, m, g, h, gd, hd in rows:
+            ec[m, n], ecd[m, n] = float(g), float(gd)
+            if m:
+                ec[n, m - 1], ecd[n, m - 1] = float(h), float(hd)
+        if not bad and not (np.array_equal(np.asarray(w.c, float), ec) and np.array_equal(np.asarray(w.cd, float), ecd)):
+            bad = ('packed matrices differ', np.argwhere(np.asarray(w.c, float) != ec).tolist()[:5])
         if bad:
             ctx.disagree('C14_data', {'file': y}, bad, 'load_coefficients')
         else:
@@ -415,13 +499,18 @@ def correspondence(ctx):
         w.denormalize_coefficients(c['phi'])
         return [[w.P[m, n] for n in range(NMAX + 1) for m in range(n + 1)], [w.dP[m, n] for n in range(NMAX + 1) for m in range(n + 1)]]
     ctx.correspond('C14_legendre', [{'phi': math.radians(c[0])} for c in cases[:ctx.n(30, 200)]], leg, tol_ulp=256, scale_floor=16.0)
-    _corr_data(ctx)
-    _corr_epoch(ctx)
-    _corr_tables(ctx)
     n = ctx.n(1000, 20000)
     allc = gen_cases(ctx.rng, n)
-    for i in range(0, len(allc), 2500):
-        _corr_model(ctx, allc[i:i + 2500], 'C14_model_float')
+    parts = [(_corr_data, (ctx,)), (_corr_epoch, (ctx,)), (_corr_tables, (ctx,))]
+    parts += [(_corr_model, (ctx, allc[i:i + 2500], 'C14_model_float')) for i in range(0, len(allc), 2500)]
+    for f, a in parts:
+        # an exception of the implementation inside a correspondence is a broken correspondence, not a harness failure:
+        # the search below must still run and name the concrete input
+        try:
+            f(*a)
+        except Exception as e:
+            ctx.broken.append({'kind': 'correspondence', 'target': f.__name__, 'error': f'{type(e).__name__}: {e}'[:300]})
+            ctx.say(f"[corr] {f.__name__}: implementation raised {type(e).__name__}: {str(e)[:160]}")
 
 
 # ------------------------------------------------------------------------------------------------
@@ -584,7 +673,27 @@ def o_epoch(inp):
     return None
 
 
-ORACLES = {'field': o_field, 'table': o_table, 'epoch': o_epoch}
+BOUNDARY_DATES = [2015.0, 2015, 2015.0000001, 2019.99, 2019.999, 2019.9999999, 2020.0, 2020, 2020.0000001, 2024.99, 2024.999,
+                  2024.9999999, 2025.0, 2025, 2025.0000001, 2029.99, 2029.999, 2029.9999999, 2030.0, 2030,
+                  [2015, 1, 1], [2019, 12, 30], [2019, 12, 31], [2020, 1, 1], [2024, 12, 29], [2024, 12, 30], [2025, 1, 1],
+                  [2029, 12, 30], [2029, 12, 31]]
+
+
+def o_date_boundary(inp):
+    """at the ends of each model's validity window (2015.0, 2020.0, 2025.0, 2030.0 and the neighbouring dates, as float, int
+    and datetime.date) an answer exists and equals the synthesis: an exception there is a violation of its own kind"""
+    r = o_field(inp)
+    if r is None:
+        return None
+    d = inp['date']
+    where = '-'.join(map(str, d)) if isinstance(d, (list, tuple)) else repr(d)
+    if '/raises-' in r['tag']:
+        exc = r['tag'].split('/raises-')[1].split('@')[0]
+        return dict(r, tag=f"date-boundary/raises-{exc}@{where}")
+    return dict(r, tag=f"date-boundary/{r['tag'].split('/', 1)[1].split('@')[0]}@{where}")
+
+
+ORACLES = {'field': o_field, 'table': o_table, 'epoch': o_epoch, 'date_boundary': o_date_boundary}
 
 
 def _wrap(f, inp):
@@ -620,6 +729,12 @@ def search(ctx, scale):
             inp = {'lat': float(ctx.rng.uniform(-90, 90)), 'lon': float(ctx.rng.uniform(-180, 180)),
                    'h': float(ctx.rng.uniform(-1, 850)), 'date': list(ymd), 'form': form}
             ctx.check('field', inp, _wrap(o_field, inp), nontrivial_key=(ymd, form))
+    pts = [(48.13723, 11.575508, 0.521), (-33.0, 151.0, 0.0), (90.0, 0.0, 0.0), (0, 0, 0)]
+    for j, d in enumerate(BOUNDARY_DATES):
+        for form in ('method', 'ctor', FORMS[2 + j % (len(FORMS) - 2)]):
+            la, lo, hh = pts[j % len(pts)]
+            inp = {'lat': la, 'lon': lo, 'h': hh, 'date': d, 'form': form}
+            ctx.check('date_boundary', inp, _wrap(o_date_boundary, inp), nontrivial_key=(str(d), form))
     for row in _test_tables():
         ctx.check('table', row, _wrap(o_table, row), nontrivial_key=(row['table'], row['date'], row['lat'], row['lon'], row['h']))
     ds = [2015.0, 2019.9999, 2020.0, 2024.9999, 2025.0, 2030.0, 2035.5] + [float(x) for x in np.round(ctx.rng.uniform(2015, 2031, 40 * scale), 3)]
